@@ -541,6 +541,7 @@ func runC14(t *testing.T, rep *mc.Reporter) {
 		auto  bool
 		same  bool
 		topo  []string
+		foo   bool
 	}
 	var cplans []cplan
 	for _, ls := range laneSeqs {
@@ -553,6 +554,9 @@ func runC14(t *testing.T, rep *mc.Reporter) {
 	// the same with the stored frontier coming from earlier units of the same life: the first
 	// judged start already resumes from it, so falling back behind it is visible at once
 	cplans = append(cplans, cplan{lanes: []int{1, 0}, bound: 1, mode: "parallel", pre: []int{0, 1}, same: true, auto: true})
+	// sync mode with an output slot white list and units whose command the static key table does
+	// not know (not slot-filtered): every unit's record must be found again at the next start
+	cplans = append(cplans, cplan{lanes: []int{0, 1}, bound: 0, mode: "sync", foo: true}, cplan{lanes: []int{1, 1}, bound: 0, mode: "sync", foo: true})
 	// sync mode on the cluster, also as the second life of a namespace: three units on one slot,
 	// a full resync under the same run id, then fewer units on another slot
 	cplans = append(cplans, cplan{lanes: []int{1, 0}, bound: 0, mode: "sync"}, cplan{lanes: []int{1, 1}, bound: 0, mode: "sync", pre: []int{0, 0, 0}})
@@ -587,7 +591,7 @@ func runC14(t *testing.T, rep *mc.Reporter) {
 	if fam == "cauto" {
 		var keep []cplan
 		for _, cp := range cplans {
-			if cp.same {
+			if cp.same || cp.foo {
 				keep = append(keep, cp)
 			}
 		}
@@ -605,7 +609,7 @@ func runC14(t *testing.T, rep *mc.Reporter) {
 			rep.Capped("cluster scenarios: their share of the deadline is used up")
 			break
 		}
-		cscn := c14cScenario{Lanes: cp.lanes, Cfg: biCfg{cp.mode, 2}, MaxCrashes: ccrashes, Idle: 1, Cluster: true, Soft: cp.soft, Pre: cp.pre, AutoFlush: cp.auto, PreSameLife: cp.same, Topo: cp.topo}
+		cscn := c14cScenario{Lanes: cp.lanes, Cfg: biCfg{cp.mode, 2}, MaxCrashes: ccrashes, Idle: 1, Cluster: true, Soft: cp.soft, Pre: cp.pre, AutoFlush: cp.auto, PreSameLife: cp.same, Topo: cp.topo, Foo: cp.foo}
 		if len(cp.topo) > 0 {
 			cscn.MaxCrashes = 0
 		}
